@@ -177,3 +177,19 @@ impl<Q: BrokerQuote, O: BrokerOrder, B: StaticWeightBroker<Q, O>> StaticWeightSt
         self.history.clone()
     }
 }
+
+/// Accessors for the verification harness in /verif (off-by-default `verif` feature).
+#[cfg(feature = "verif")]
+impl<Q: BrokerQuote, O: BrokerOrder, B: StaticWeightBroker<Q, O>> StaticWeightStrategy<Q, O, B> {
+    pub fn verif_brkr(&self) -> &B {
+        &self.brkr
+    }
+
+    pub fn verif_brkr_mut(&mut self) -> &mut B {
+        &mut self.brkr
+    }
+
+    pub fn verif_net_cash_flow(&self) -> f64 {
+        self.net_cash_flow
+    }
+}
